@@ -91,6 +91,23 @@ func frameChecksC08(P *Program, tier string) []extraResult {
 		}
 		res = append(res, extraResult{Name: "readonly/" + name, Kind: "inferred-frame", OK: ok, Detail: d})
 	}
+	// second sentence of the property: operand / predicate / key evaluation is side-effect free unconditionally
+	for _, h := range P.handlersOf("unconditional") {
+		name := P.relName(h)
+		inf := U[h]
+		if inf == nil {
+			con := P.contractFor(h)
+			ok := con != nil && !con.flag("synth") && !con.flag("trusted") && len(con.Modifies) == 0 && con.ReadonlyIf == nil
+			res = append(res, extraResult{Name: "operands-readonly/" + name, Kind: "inferred-frame", OK: ok, Detail: "hand-written unconditional frame contract"})
+			continue
+		}
+		ok := inf.class == clsPure && len(inf.writable()) == 0
+		d := fmt.Sprintf("inferred: %s writes=%v", inf.class, inf.writable())
+		if !ok {
+			d += "\nthe handler is only read-only when the incoming context already is: it evaluates an operand, predicate or key in the caller's (possibly writable) context\nfailing obligation as PURE: " + inf.pureReason
+		}
+		res = append(res, extraResult{Name: "operands-readonly/" + name, Kind: "inferred-frame", OK: ok, Detail: d})
+	}
 	// overridden (known-defect) functions
 	var ovNames []string
 	for n := range ov {
